@@ -265,9 +265,16 @@ def _ptr(ex, st, p, what='pointer'):
     if not isinstance(p, int): p = ex.concretize(st, p, 64, what)
     return p
 
-@builtin('memcpy', 'memmove')
+@builtin('memmove')
+def b_memmove(ex, st, args, ins):
+    d = _ptr(ex, st, args[0]); s = _ptr(ex, st, args[1]); n = _len(ex, st, args[2], 'memcpy n')
+    if n: st.mem.memcpy(d, s, n)
+    return d
+@builtin('memcpy')
 def b_memcpy(ex, st, args, ins):
     d = _ptr(ex, st, args[0]); s = _ptr(ex, st, args[1]); n = _len(ex, st, args[2], 'memcpy n')
+    if n and d != s and d < s + n and s < d + n:
+        raise MemError('memcpy-overlap', 'memcpy with overlapping ranges: dest %#x, src %#x, %d bytes (undefined behaviour; memmove is required)' % (d, s, n))
     if n: st.mem.memcpy(d, s, n)
     return d
 
@@ -508,6 +515,8 @@ def llvm_intrinsic(ex, name, ins, d, gargs):
                 dd = gd(regs); ss = gs(regs)
                 if not isinstance(dd, int): dd = ex.concretize(st, dd, 64, 'memcpy dst')
                 if not isinstance(ss, int): ss = ex.concretize(st, ss, 64, 'memcpy src')
+                if key == 'memcpy' and dd != ss and dd < ss + n and ss < dd + n:
+                    raise MemError('memcpy-overlap', 'memcpy with overlapping ranges: dest %#x, src %#x, %d bytes (undefined behaviour; memmove is required)' % (dd, ss, n))
                 st.mem.memcpy(dd, ss, n)
         return f
     if key == 'memset':
